@@ -66,6 +66,10 @@ class JSONSerialization(Serialization):
         type(None): 'null'
     }
 
+    json_schema_container_types = {
+        bool: 'boolean', list: 'array', tuple: 'array', dict: 'object'
+    }
+
     @classmethod
     def loads(cls, serialized):
         return json.loads(serialized)
@@ -149,6 +153,10 @@ class JSONSerialization(Serialization):
             return {'anyOf': [cls.class__schema(cls_) for cls_ in class_]}
         elif class_ in cls.json_schema_literal_types:
             return {'type': cls.json_schema_literal_types[class_]}
+        elif class_ in cls.json_schema_container_types:
+            # JSON has its own types for these too ('object' stands for
+            # classes serialized as a mapping)
+            return {'type': cls.json_schema_container_types[class_]}
         elif issubclass(class_, Parameterized):
             return {'type': 'object', 'properties': class_.param.schema(safe)}
         else:
